@@ -71,6 +71,9 @@ func runShutdownScenario(c shutCase) (res shutResult) {
 	if c.Kind == "openRace" {
 		return runOpenRaceScenario(c)
 	}
+	if c.Kind == "closeRace" {
+		return runCloseRaceScenario(c)
+	}
 	bad := func(clause, f string, a ...any) {
 		res.Devs = append(res.Devs, Deviation{Clause: clause, Props: []string{"C20"}, Sig: clause + "|" + c.Kind, Msg: fmt.Sprintf(f, a...)})
 	}
@@ -360,6 +363,17 @@ func genShutCase(rt *rapid.T) shutCase {
 		// handles are closed again before it is due
 		return shutCase{Kind: "openRace", Disk: true, Handles: rapid.IntRange(2, 6).Draw(rt, "openers"), Shutdown: "Close", Seed: int64(rapid.IntRange(1, 1<<30).Draw(rt, "seed"))}
 	}
+	if chance(rt, 12, "closeRace") {
+		// handles opened and closed again, round after round, under goroutines calling through them
+		c := shutCase{Kind: "closeRace", Handles: 1, Disk: chance(rt, 30, "disk"), Shutdown: "Close"}
+		n := rapid.IntRange(2, 5).Draw(rt, "nworkers")
+		for i := 0; i < n; i++ {
+			c.Workers = append(c.Workers, pick(rt, closeRaceWorkerKinds, "worker"))
+		}
+		c.After = rapid.IntRange(0, 100).Draw(rt, "rounds")
+		c.Seed = int64(rapid.IntRange(1, 1<<30).Draw(rt, "seed"))
+		return c
+	}
 	if chance(rt, 35, "storm") {
 		c := shutCase{Kind: "storm", Handles: rapid.IntRange(1, 3).Draw(rt, "handles"), Disk: chance(rt, 50, "disk")}
 		n := rapid.IntRange(2, 6).Draw(rt, "nworkers")
@@ -402,7 +416,7 @@ func TestC20(t *testing.T) {
 			t.Fatal(err)
 		}
 		tries := 3
-		if c.Kind == "storm" {
+		if c.Kind == "storm" || c.Kind == "closeRace" {
 			tries = 12 // free-running: the scenario replays, the interleaving does not
 		}
 		for i := 0; i < tries; i++ {
